@@ -275,3 +275,19 @@ Definition check_dr (k : case_dr) : bool :=
   let lam := lam_of (kr_lam k) in
   vsclose (kr_tr k) (dr_trace pf (kr_tau k) lam ops (kr_n k) 0 (dr_init ops (kr_x k)))
   && vclose (kr_fin k) (dr_run pf (kr_tau k) lam ops (kr_n k) (kr_x k)).
+
+(* ---- dca / prox_dca ---- *)
+(* gradient of the convex conjugate (smooth strongly convex members of the family) *)
+Fixpoint ccgrad_of (f : fk) (y : qvec) : qvec :=
+  match f with
+  | FL2sq lam => map (fun a => Qred (a / (2 * lam))) y
+  | FTrans f c => vadd (ccgrad_of f y) c
+  | _ => y
+  end.
+Record case_dca := { kq_prox : bool; kq_f : fk; kq_g : fk; kq_gamma : Q; kq_x : qvec; kq_n : nat;
+                     kq_tr : list qvec; kq_split : list qvec }.
+Definition check_dca (k : case_dca) : bool :=
+  let st := if kq_prox k then prox_dca_step (grad_of (kq_g k)) (prox_of (kq_f k) (kq_gamma k)) (kq_gamma k)
+            else dca_step (ccgrad_of (kq_f k)) (grad_of (kq_g k)) in
+  vsclose (kq_tr k) (trace (fun x => x) (kq_n k) st (kq_x k))
+  && splits_ok (kq_split k) (iter (kq_n k) st (kq_x k)).
